@@ -366,6 +366,10 @@ def c13_once(r, seed, tier, model_ok):
             "double-list": lambda k: "ㄴ" + " (ㄱㅇㄱ ㄱㅇㄱ ㅁㄹㅎㄷ ㅎ) ㅎㄴ" * min(k, 14),
             "fan-out-3": lambda k: "ㄴ" + " (ㄱㅇㄱ ㄱㅇㄱ ㄱㅇㄱ ㄷㅎㄹ ㅎ) ㅎㄴ" * k,
             "shared-in-branches": lambda k: "ㄴ" + " (ㄱㅇㄱ ㄱㅇㄱ ㄱㅇㄱ ㄱㅇㄱ ㄴㅎㄷ ㅎㄷ ㅎ) ㅎㄴ" * k,
+            # g = \\x. L[x + x] applied k times to 0 with L = [0]: every level ends by returning an ALREADY evaluated element of the list in tail position
+            "element-returned": lambda k: "(ㄱ ㅁㄹㅎㄴ) ((ㄱ" + " ((ㄱㅇㄱ ㄱㅇㄱ ㄷㅎㄷ) ㄱㅇㄴ ㅎㄴ ㅎ) ㅎㄴ" * k + ") ㅎ) ㅎㄴ",
+            # the same through a dictionary {0: 0}
+            "dict-value-returned": lambda k: "(ㄱ ㄱ ㅅㅈㅎㄷ) ((ㄱ" + " ((ㄱㅇㄱ ㄱㅇㄱ ㄷㅎㄷ) ㄱㅇㄴ ㅎㄴ ㅎ) ㅎㄴ" * k + ") ㅎ) ㅎㄴ",
             # a FAILING expression handed down k levels of  \x. try(x, \_. x) : with failures cached each level does constant work, otherwise 2^k
             "failed-retry": lambda k: "((ㄴ ㄱ ㄴㄴㅎㄷ)" + " ((ㄱㅇㄱ ((ㄱㅇㄴ) ㅎ) ㅅㄷㅎㄷ) ㅎ) ㅎㄴ" * k + ") (ㄱ ㅎ) ㅅㄷㅎㄷ"}
     bad2 = []; meas = {}
@@ -378,7 +382,7 @@ def c13_once(r, seed, tier, model_ok):
             if e[0] not in ("ok",): bad2.append(dict(program=f"{name} k={k}: {f(k)[:80]}...", impl=e[0], model="completes (work proportional to the number of delayed expressions)", which=["linear"]))
         slope = (ev[1][1] - ev[0][1]) / (ks[1] - ks[0]); pred = ev[0][1] + slope * (ks[-1] - ks[0])
         if ev[-1][0] == "ok" and ev[-1][1] > 1.05 * pred + 10: bad2.append(dict(program=f"{name}: {f(3)}", impl=f"events: {meas[name]}", model=f"linear in k (predicted {pred:.0f} at k={ks[-1]})", which=["linear"]))
-    r.slice("sharing_families", sum(len(v) for v in meas.values()), 5 * 5, [fams["double-add"](3)], meas, "doubling / fan-out families: observer events linear in depth k (k up to 200)", bad2)
+    r.slice("sharing_families", sum(len(v) for v in meas.values()), 7 * 5, [fams["double-add"](3)], meas, "doubling / fan-out families: observer events linear in depth k (k up to 200)", bad2)
     if model_ok:
         # the NUMBER of delayed expressions whose evaluation begins: implementation (observer: started with an empty cache) vs Count.trace_main of the
         # model, about which evaluated_at_most_once / work_is_linear are theorems
